@@ -1,0 +1,149 @@
+//go:build verif
+
+// Contracts for package balance, read by the verification-condition generator in /verif/govc.
+// This file contains comments only; it is compiled only with -tags verif and adds no code.
+
+package balance
+
+/*@
+// ---------------------------------------------------------------------------------------------
+// The printers walk the balance tree recursively: they terminate (measure tmax - depth, see TreeInv in the
+// root package), never touch a nil node, and write only through the given writer (C08, C17).
+// ---------------------------------------------------------------------------------------------
+func printNode returns (err)
+  props C03 C08 C17
+  requires @tree TreeInv() && node in tnodes && typeis(output, "*bufio.Writer") && payload(output) != 0
+  decreases tmax - tdepth[node]
+  modifies ghost(bufSticky, sinkFailed, sinkPend, prLen, prSink, prArg, prArgs)
+  ensures @sink [C17] BufStep(payload(output))
+  loop 1 {
+    invariant @inv node == old(node) && output == old(output) && level == old(level) && collapseLast == old(collapseLast) && BufStep(payload(output))
+    invariant @keys forall p int :: {#coll[p]} 0 <= p && p < len(#coll) ==> #coll[p] in node.Children
+  }
+
+func getJump returns (jump)
+  props C03 C08
+  requires @tree TreeInv() && node in tnodes
+  decreases tmax - tdepth[node]
+
+func printNodeCollapsed returns (err)
+  props C03 C08 C17
+  requires @tree TreeInv() && node in tnodes && typeis(output, "*bufio.Writer") && payload(output) != 0
+  decreases tmax - tdepth[node]
+  modifies ghost(bufSticky, sinkFailed, sinkPend, prLen, prSink, prArg, prArgs)
+  ensures @sink [C17] BufStep(payload(output))
+  ensures @reports-loss [C17] err == nil ==> bufSticky[payload(output)] == old(bufSticky[payload(output)])
+  loop 1 {
+    invariant @inv node == old(node) && output == old(output) && level == old(level) && BufStep(payload(output)) && bufSticky[payload(output)] == old(bufSticky[payload(output)])
+    invariant @keys forall p int :: {#coll[p]} 0 <= p && p < len(#coll) ==> #coll[p] in node.Children
+  }
+
+// ---------------------------------------------------------------------------------------------
+// the three balance reporters: one tree for the whole walk, printed in Flush
+// ---------------------------------------------------------------------------------------------
+pred BalInv(r *balanceReporter) := r != nil && r.output != nil && TreeInv() && r.root in tnodes
+pred BalCInv(r *balanceReporterCollapsed) := r != nil && r.output != nil && TreeInv() && r.root in tnodes
+pred BalSInv(r *balanceSingleReporter) := r != nil && r.output != nil && TreeInv() && r.root in tnodes && DBIs(r.db)
+
+func newBalanceReporter returns (r)
+  props C03 C08 C17
+  requires @tree TreeInv()
+  modifies ghost(bufSink, bufSticky, tnodes, tdepth, tmax, tmapOf)
+  ensures @fresh fresh(r) && fresh(r.output) && BalInv(r) && r.db == db
+  ensures @nodes-kept forall n *shared.TreeNode :: {n in tnodes} old(n in tnodes) ==> n in tnodes
+  ensures @sink [C17] bufSink == store(old(bufSink), r.output, payload(config.Output)) && bufSticky == store(old(bufSticky), r.output, false)
+  ghost before return 1 { set tnodes := store(tnodes, r.root, true); set tdepth := store(tdepth, r.root, 0); set tmapOf := store(tmapOf, r.root.Children, r.root); set tmax := if tmax < 0 then 0 else tmax }
+
+func (*balanceReporter).Process returns (err)
+  props C03 C08 C17
+  requires @args ln != nil && BalInv(r)
+  modifies heap(shared.TreeNode), maps(string, *shared.TreeNode)
+  modifies ghost(tnodes, tdepth, tmax, tmapOf)
+  ensures @inv BalInv(r) && err == nil && r.output == old(r.output) && r.root == old(r.root)
+  ensures @nodes-kept forall n *shared.TreeNode :: {n in tnodes} old(n in tnodes) ==> n in tnodes
+  loop 1 {
+    invariant @inv r == old(r) && ln == old(ln) && BalInv(r) && r.output == old(r.output) && r.root == old(r.root)
+    invariant @nodes-kept forall n *shared.TreeNode :: {n in tnodes} old(n in tnodes) ==> n in tnodes
+  }
+
+func (*balanceReporter).Flush returns (err)
+  props C03 C08 C17
+  requires @args BalInv(r)
+  modifies ghost(bufSticky, sinkFailed, sinkPend, prLen, prSink, prArg, prArgs)
+  ensures @sink [C17] BufStep(r.output)
+  ensures @reports-loss [C17] err == nil ==> !bufSticky[r.output] && sinkPend[bufSink[r.output]] == 0
+
+func newBalanceReporterCollapsed returns (r)
+  props C03 C08 C17
+  requires @tree TreeInv()
+  modifies ghost(bufSink, bufSticky, tnodes, tdepth, tmax, tmapOf)
+  ensures @fresh fresh(r) && fresh(r.output) && BalCInv(r) && r.db == db
+  ensures @nodes-kept forall n *shared.TreeNode :: {n in tnodes} old(n in tnodes) ==> n in tnodes
+  ensures @sink [C17] bufSink == store(old(bufSink), r.output, payload(config.Output)) && bufSticky == store(old(bufSticky), r.output, false)
+  ghost before return 1 { set tnodes := store(tnodes, r.root, true); set tdepth := store(tdepth, r.root, 0); set tmapOf := store(tmapOf, r.root.Children, r.root); set tmax := if tmax < 0 then 0 else tmax }
+
+func (*balanceReporterCollapsed).Process returns (err)
+  props C03 C08 C17
+  requires @args ln != nil && BalCInv(r)
+  modifies heap(shared.TreeNode), maps(string, *shared.TreeNode)
+  modifies ghost(tnodes, tdepth, tmax, tmapOf)
+  ensures @inv BalCInv(r) && err == nil && r.output == old(r.output) && r.root == old(r.root)
+  ensures @nodes-kept forall n *shared.TreeNode :: {n in tnodes} old(n in tnodes) ==> n in tnodes
+  loop 1 {
+    invariant @inv r == old(r) && ln == old(ln) && BalCInv(r) && r.output == old(r.output) && r.root == old(r.root)
+    invariant @nodes-kept forall n *shared.TreeNode :: {n in tnodes} old(n in tnodes) ==> n in tnodes
+  }
+
+func (*balanceReporterCollapsed).Flush returns (err)
+  props C03 C08 C17
+  requires @args BalCInv(r)
+  modifies ghost(bufSticky, sinkFailed, sinkPend, prLen, prSink, prArg, prArgs)
+  ensures @sink [C17] BufStep(r.output)
+  ensures @reports-loss [C17] err == nil ==> !bufSticky[r.output] && sinkPend[bufSink[r.output]] == 0
+
+func newBalanceSingleReporter returns (r)
+  props C03 C08 C17 C07
+  requires @tree TreeInv() && DBIs(db)
+  modifies ghost(bufSink, bufSticky, tnodes, tdepth, tmax, tmapOf)
+  ensures @fresh fresh(r) && fresh(r.output) && BalSInv(r) && r.db == db && r.total == 0.0 && r.singleElement == config.SingleElement
+  ensures @nodes-kept forall n *shared.TreeNode :: {n in tnodes} old(n in tnodes) ==> n in tnodes
+  ensures @sink [C17] bufSink == store(old(bufSink), r.output, payload(config.Output)) && bufSticky == store(old(bufSticky), r.output, false)
+  ghost before return 1 { set tnodes := store(tnodes, r.root, true); set tdepth := store(tdepth, r.root, 0); set tmapOf := store(tmapOf, r.root.Children, r.root); set tmax := if tmax < 0 then 0 else tmax }
+
+func (*balanceSingleReporter).Process returns (err)
+  props C03 C08 C17 C07
+  requires @args ln != nil && BalSInv(r)
+  modifies *r, heap(shared.TreeNode), maps(string, *shared.TreeNode)
+  modifies ghost(tnodes, tdepth, tmax, tmapOf)
+  ensures @inv BalSInv(r) && err == nil && r.output == old(r.output) && r.root == old(r.root) && r.db == old(r.db) && r.singleElement == old(r.singleElement)
+  ensures @nodes-kept forall n *shared.TreeNode :: {n in tnodes} old(n in tnodes) ==> n in tnodes
+  // the grand total grows by exactly the day's contribution to the chosen element - the same figures as the
+  // register's daily totals and `report totals` (C07)
+  let E0 := elems(ln.Elements)
+  let N0 := len(ln.Elements)
+  let S := r.singleElement
+  let T0 := r.total
+  ensures @grand-total [C07 C03] r.total == T0 + EPos(E0, N0, S) + ENeg(E0, N0, S)
+  loop 1 {
+    pre { unfold EPos(E0, 0, S); unfold ENeg(E0, 0, S) }
+    invariant @total r.total == T0 + EPos(E0, #i, S) + ENeg(E0, #i, S) && elems(ln.Elements) == E0 && len(ln.Elements) == N0 && ln.Elements == old(ln.Elements)
+    end { let i1 := #i + 1; unfold EPos(E0, i1, S); unfold ENeg(E0, i1, S); unfold CPos(E0[i1 - 1].Name, E0[i1 - 1].Value, S); unfold CNeg(E0[i1 - 1].Name, E0[i1 - 1].Value, S) }
+    invariant @inv r == old(r) && ln == old(ln) && BalSInv(r) && r.output == old(r.output) && r.root == old(r.root) && r.db == old(r.db) && r.singleElement == old(r.singleElement) && r.collapse == old(r.collapse) && r.collapseLast == old(r.collapseLast)
+    invariant @nodes-kept forall n *shared.TreeNode :: {n in tnodes} old(n in tnodes) ==> n in tnodes
+  }
+  loop 2 {
+    pre { unfold CPosIn(RDB[el.Name], 0, el.Value, S); unfold CNegIn(RDB[el.Name], 0, el.Value, S) }
+    invariant @total r.total == T0 + EPos(E0, #i1, S) + ENeg(E0, #i1, S) + CPosIn(RDB[el.Name], #i, el.Value, S) + CNegIn(RDB[el.Name], #i, el.Value, S) && elems(ln.Elements) == E0 && len(ln.Elements) == N0 && ln.Elements == old(ln.Elements)
+    invariant @row el == E0[#i1] && 0 <= #i1 && #i1 < N0 && el.Name in RDBdom && elems(#coll) == RDB[el.Name] && len(#coll) == RDBlen[el.Name]
+    end { let j1 := #i + 1; unfold CPosIn(RDB[el.Name], j1, el.Value, S); unfold CNegIn(RDB[el.Name], j1, el.Value, S) }
+    invariant @inv r == old(r) && ln == old(ln) && BalSInv(r) && r.output == old(r.output) && r.root == old(r.root) && r.db == old(r.db) && r.singleElement == old(r.singleElement) && r.collapse == old(r.collapse) && r.collapseLast == old(r.collapseLast)
+    invariant @nodes-kept forall n *shared.TreeNode :: {n in tnodes} old(n in tnodes) ==> n in tnodes
+  }
+
+func (*balanceSingleReporter).Flush returns (err)
+  props C03 C08 C17
+  requires @args BalSInv(r)
+  modifies ghost(bufSticky, sinkFailed, sinkPend, prLen, prSink, prArg, prArgs)
+  ensures @sink [C17] BufStep(r.output)
+  ensures @reports-loss [C17] err == nil ==> !bufSticky[r.output] && sinkPend[bufSink[r.output]] == 0
+@*/
